@@ -525,6 +525,18 @@ pub fn install_panic_hook() {
     }));
 }
 
+/// A thread that can never continue (it waits for a lock it holds itself): recorded next to the
+/// panics, as what it is for the rest of the system — a thread that is gone while holding its locks.
+pub fn record_stuck(task: usize, what: &str) {
+    let _ = try_with_ctx(|c| {
+        let role = c.roles.get(&task).cloned().unwrap_or_default();
+        let seq = c.events.len() as u64;
+        let location = what.rsplit('(').next().unwrap_or("").trim_end_matches(')').to_string();
+        c.events.push(Event { seq, task, t_ns: crate::time::now_ns(), kind: "stuck", detail: format!("{role}: {}", truncate(what, 200)) });
+        c.panics.push(PanicRec { seq, task, role, message: what.split(" (").next().unwrap_or(what).to_string(), location, contained: false });
+    });
+}
+
 pub fn record_panic(task: usize, role: &str) {
     let _ = try_with_ctx(|c| {
         let (message, location) = c
